@@ -86,3 +86,27 @@ Lemma mw_tree_example :
   /\ (let only_b := fun s : stat => bytes_eqb (st_path s) [98] in
       link_closed only_b (recv_stream (walk mw_tree)) = false /\ recv_accepts only_b (walk mw_tree) = false).
 Proof. vm_compute. repeat split; reflexivity. Qed.
+
+(* ---- the transfer theorem on walked trees: prior destination and source are walks of arbitrary
+        well-formed trees, the selector is link-closed on the source walk, nothing depends on the
+        reserved name - no hypothesis about what the validators do is left ---- *)
+From FS Require Import Model.Converge Model.MetaTransfer Proofs.MetaTransferP.
+Theorem meta_converges_on_walked_trees_proof sel (H : bytes -> bytes) (hdr : stat -> bytes) d contA tA contB tB :
+  wf_tree tA -> ino_consistent tA -> inode_coherent tA ->
+  wf_tree tB -> ino_consistent tB -> inode_coherent tB ->
+  let A := walk_entries contA tA in
+  let B := walk_entries contB tB in
+  listing_dependents (walk tB) = false ->
+  link_closed sel (recv_stream (walk tB)) = true ->
+  AbsDest.identity_faithful d A (meta_proj sel B) ->
+  let r := receive_abs H hdr Fresh d A (meta_proj sel B) in
+  ds_err r = false /\ approx A (meta_proj sel B) (view_of (ds_map r)) /\
+  find_obs listing_name (view_of (ds_map r)) = None.
+Proof.
+  intros HwA HiA HcA HwB HiB HcB A B Hnd Hlc Hif.
+  destruct (walk_views_are_wf_proof contA tA HwA HiA HcA) as [HweA _].
+  destruct (walk_views_are_wf_proof contB tB HwB HiB HcB) as [HweB EB].
+  apply meta_transfer_converges_proof; auto.
+  - unfold B. rewrite EB. exact Hnd.
+  - unfold B. rewrite EB. apply (proj2 (walked_source_accepts_iff_proof contB tB HwB HiB HcB sel Hnd)). exact Hlc.
+Qed.
